@@ -398,6 +398,10 @@ class Rewriter:
                 elif depth == 0 and ((t.kind == "punct" and t.text in "=;,|&*!<>+-/") or
                                      (t.kind == "ident" and t.text in ("return", "in", "if", "match", "let", "else"))):
                     break
+                elif depth == 0 and t.kind == "punct" and t.text == ":" and not (
+                        (r > 0 and toks[r - 1].kind == "punct" and toks[r - 1].text == ":") or
+                        (toks[r + 1].kind == "punct" and toks[r + 1].text == ":")):
+                    break           # `field: expr` in a struct literal (a single colon, not a path separator)
                 r -= 1
             rs = toks[r + 1].start
             recv = text[rs:toks[k].start].strip()
